@@ -46,4 +46,17 @@ CHECKS.update({
  },
 })
 
+CHECKS.update({
+ "C03": {
+  "text": "The complete one-handshake table mode(6 incl. unset) x OCSP outcome(4) x aia_strict x cdp_strict x backend (192 configurations chosen in Init of Revocation.tla) x every certificate x every document the CDP may serve is enumerated by TLC with ModePromise (verdict = sequential composition of the enabled mechanisms) proved on it; every cell is then executed on a fresh real validator and accept/reject is compared for equality (the property is an iff), together with the touch sets (no CRL fetch / empty work_dir when CRL is not enabled, no responder contact when OCSP is not enabled). Chain shapes rotate by seed.",
+  "note": "Exhaustive over the abstract table in the thorough tier; the quick tier runs all memory cells and a seeded third of the disk cells. 'Unavailable CDP' is mostly a garbage body; connection hang-ups are sampled. Trusts TLC and the harness' verdict classification (nil = accept).",
+  "technique": "TLC enumeration of the finite mode table (Revocation.tla, MaxSteps=2) + cell-by-cell replay through Provision/VerifyClientCertificate",
+ },
+ "C09": {
+  "text": "CrlStore.tla with the fault actions CloseUnder and Corrupt(k) enabled proves FailClosed (a faulty lookup answers 'error'); its complete graph is walked on the real backends and the lookups compared. The same fault classes plus a failing store swap are injected underneath a provisioned validator (closing LevelDbStore.Db, overwriting the record value found by content, wrapping the live store so that Update fails after closing) and observed through VerifyClientCertificate for listed and unlisted certificates, strict and lenient.",
+  "note": "Store-level fault graph exhaustive for 2 keys; validator-level cases are the finite product backend x fault x listed x strict. Block-level .ldb corruption and real I/O errors are not injected (the closed database stands for 'Get returns a non-NotFound error'). Trusts TLC and goleveldb's error reporting.",
+  "technique": "TLC fault-transition model (CrlStore.tla, Faulty=TRUE) + fault-injection replay on both backends and through the validator API",
+ },
+})
+
 PENDING = {}
